@@ -555,6 +555,53 @@ func (e *env) v2Witness(cs consensus.State, orig types.Block, kinds []string) {
 			})
 			break // first input is enough per transaction
 		}
+		// the claimed parent re-addressed to another actor, with that actor's policy and valid signature: the
+		// claimed address is all that ties the revealed policy to the output, so it must be bound to the real
+		// output (by the accumulator proof, or by comparison with the output created earlier in the block)
+		doneAcc, doneEph := false, false
+		for k := range t.SiacoinInputs {
+			in := t.SiacoinInputs[k]
+			eph := in.Parent.StateElement.LeafIndex == types.UnassignedLeafIndex
+			if (eph && doneEph) || (!eph && doneAcc) {
+				continue
+			}
+			must := true
+			name := "accumulator"
+			if eph {
+				name = "in-block"
+				doneEph = true
+				if cs.Index.Height+1 < c.Net.N.HardforkV2.EphemeralOutputHeight {
+					must = false // documented legacy window: in-block parents' claimed contents are not cross-checked
+				}
+				e.b.Count("in_block_parents_readdressed", 1)
+			} else {
+				doneAcc = true
+			}
+			fp := types.PolicyPublicKey(foreignKey.PublicKey())
+			if in.Parent.SiacoinOutput.Address == fp.Address() {
+				continue
+			}
+			variant("claimed-parent-address-and-policy-substituted-by-another-actor/"+name+"-siacoin-parent", must, func(tt *types.V2Transaction) bool {
+				tt.SiacoinInputs[k].Parent.SiacoinOutput.Address = fp.Address()
+				tt.SiacoinInputs[k].SatisfiedPolicy = types.SatisfiedPolicy{Policy: fp}
+				tt.SiacoinInputs[k].SatisfiedPolicy.Signatures = []types.Signature{foreignKey.SignHash(cs.InputSigHash(*tt))}
+				return true
+			})
+		}
+		for k := range t.SiafundInputs {
+			in := t.SiafundInputs[k]
+			if in.Parent.StateElement.LeafIndex == types.UnassignedLeafIndex {
+				continue // only spendable in the legacy window, where nothing is cross-checked
+			}
+			fp := types.PolicyPublicKey(foreignKey.PublicKey())
+			variant("claimed-parent-address-and-policy-substituted-by-another-actor/accumulator-siafund-parent", true, func(tt *types.V2Transaction) bool {
+				tt.SiafundInputs[k].Parent.SiafundOutput.Address = fp.Address()
+				tt.SiafundInputs[k].SatisfiedPolicy = types.SatisfiedPolicy{Policy: fp}
+				tt.SiafundInputs[k].SatisfiedPolicy.Signatures = []types.Signature{foreignKey.SignHash(cs.InputSigHash(*tt))}
+				return true
+			})
+			break
+		}
 		// revisions: signed by the proposed instead of the current keys
 		for k := range t.FileContractRevisions {
 			r := t.FileContractRevisions[k]
